@@ -46,7 +46,7 @@ def xtce_text():
 
 
 def is_trivial(line, mo):
-    return line.split()[1] == "0"
+    return line.split()[1] == "0" or line.startswith("parsebad")
 
 
 def generate(rng, tier):
@@ -60,6 +60,8 @@ def generate(rng, tier):
     # well-framed packets that are shorter than the definition describes (a 64-bit float follows the header)
     for n in (1, 3):
         yield f"parseshort {n}", "parse-undecodable"
+    for kind in ("unlisted-enum", "root-name"):
+        yield f"parsebad {kind}", "parse-undecodable"
     # files that end part-way through a packet (or a header): the complete packets are listed, nothing else happens
     for n in (1, 2, 5, 10, 11, 12):
         for c in (1, 2, 6, 7, 8, 13):
@@ -94,6 +96,24 @@ def impl(line):
     t = line.split()
     if t[0] == "const":
         return f"ok {cli.MAX_ROWS} {cli.HEAD_ROWS}"
+    if t[0] == "parsebad":
+        from harness.props import c11
+        from space_packet_parser import packets
+        runner = CliRunner()
+        with tempfile.TemporaryDirectory() as d:
+            doc = c11.raise_doc("unlisted-enum")
+            data = [b"\x01", b"\x07" if t[1] == "unlisted-enum" else b"\x01", b"\x01"]
+            if t[1] == "root-name":
+                doc = doc.replace('name="CCSDSPacket"', 'name="TelemetryPacket"')
+            pf, xf = os.path.join(d, "p.bin"), os.path.join(d, "def.xml")
+            with open(pf, "wb") as f:
+                f.write(b"".join(bytes(packets.create_ccsds_packet(data=x, apid=5, sequence_count=i)) for i, x in enumerate(data)))
+            with open(xf, "w") as f:
+                f.write(doc)
+            res = runner.invoke(cli.spp, ["-q", "parse", pf, xf, "--packet=0"], terminal_width=200)
+            if res.exception is not None and not isinstance(res.exception, SystemExit):
+                return f"err traceback !{type(res.exception).__name__}"
+            return "no-traceback"
     n = int(t[1])
     if t[0] == "parseshort":
         runner = CliRunner()
@@ -155,10 +175,15 @@ def impl(line):
 
 
 def _parse_undecodable(line, mo, io):
-    return line.startswith("parseshort") and mo == "no-traceback" and io.startswith("err traceback")
+    return (line.startswith("parseshort") or line == "parsebad unlisted-enum") and mo == "no-traceback" and \
+        io.startswith("err traceback")
 
 
-KNOWN_PREDICATES = {"parse_undecodable_traceback": _parse_undecodable}
+def _parse_root(line, mo, io):
+    return line == "parsebad root-name" and mo == "no-traceback" and io.startswith("err traceback")
+
+
+KNOWN_PREDICATES = {"parse_undecodable_traceback": _parse_undecodable, "parse_root_container_traceback": _parse_root}
 
 
 def in_domain(line):
